@@ -219,6 +219,21 @@ def check_import(cfg, crate, rep):
                     tab[tags[0]] = xs.variant.split("::")[-1]
         want = {"BmpString": "BmpString", "Ia5String": "Ia5String", "PrintableString": "PrintableString", "T61String": "TeletexString", "UniversalString": "UniversalString", "Utf8String": "Utf8String"}
         rep.ob("C03.import", key2 + "|tag-table", tab == want, "each string tag is imported as the DnValue variant the Name writer writes back under the same tag", expected=want, found=tab, sp=n.get("sp"))
+        # the UTF-8 decoding of the value's bytes is a precondition of the string kinds whose transfer encoding *is* (a subset
+        # of) UTF-8 only: a BMPString / UniversalString value is UTF-16BE / UTF-32BE and must reach its own decoder whatever
+        # `from_utf8` thinks of the bytes (otherwise names rcgen itself writes, "Société" as BMPString, cannot be re-imported)
+        utf8_kinds = {"Ia5String", "PrintableString", "T61String", "Utf8String"}
+        bad_u = []
+        n_u = 0
+        for tv, tn, tf, tc in I2.tries:
+            if not any(c_.endswith("str::from_utf8") or c_.endswith("String::from_utf8") for c_ in calls_of(tv)):
+                continue
+            n_u += 1
+            ats_ = [a for a in F.atoms(tc) if a[0] == "eq" and "Tag::" in str(a[2])]
+            pos_ = {a[2].split("::")[-1] for a in ats_ if len(ats_) <= 12 and not F.counterexamples(tc, ("atom", a), "implies")}
+            if not pos_ or not pos_ <= utf8_kinds:
+                bad_u.append(F.show(tc)[-160:])
+        rep.ob("C03.import", key2 + "|utf8-decode-only-for-utf8-kinds", n_u >= 1 and not bad_u, "the value's bytes are required to be UTF-8 only under the tags whose encoding is UTF-8 / ASCII (never for BMPString / UniversalString)", found=bad_u or n_u)
         # lossless: push is an upsert; a dominating duplicate check must leave with Err
         dup = [(c, v, nn) for c, v, nn, f3 in I2.fails if f3 == fn2 and any(("DistinguishedName::get" in F.show_atom(a) or "contains_key" in F.show_atom(a) or "contains(" in F.show_atom(a)) for a in F.atoms(c))]
         rep.ob("C03.lossless", key2 + "|duplicate-attribute-type", len(dup) >= 1,
